@@ -1780,7 +1780,7 @@ def check_spellings(ctx, hz):
 
 # =============================================================================================
 # Part H (round 5): beyond the table.  The theorems radial_matches_definition, radial_at_zero and radial_at_one hold for
-# EVERY radial order; the recursion of the code is run here for orders 21 ... 40 (thorough 48), always against one cache per
+# EVERY radial order; the recursion of the code is run here for orders 21 ... 40 (thorough 44), always against one cache per
 # history (without a cache the code's recursion is exponential in n - |m|), in random request orders — including the histories
 # "higher |m| first, then lower |m|" that resume from cached intermediate results — at r = 0, r = 1 (the rim: value 1), r = 2^-12
 # and random dyadic radii up to 1.125.  Oracle: the factorial definition in exact integer arithmetic, the unit-circle identity
@@ -1851,9 +1851,9 @@ def run_high(hz, case):
 
 
 def check_high_orders(ctx, hz):
-    nhi = ctx.scale(40, 48)
-    lines, slots = [], []
-    for k in range(ctx.scale(14, 120)):
+    nhi = ctx.scale(40, 44)
+    lines, slots, pslots = [], [], []
+    for k in range(ctx.scale(14, 36)):
         case = gen_high_case(ctx.rng, nhi)
         bad, (reqs, vals) = run_high(hz, case)
         seen = set()
@@ -1869,6 +1869,20 @@ def check_high_orders(ctx, hz):
                 if any(k2 == key for k2, _, _ in run_high(hz, cand)[0]):
                     small = cand; break
             ctx.violation(key, what, small)
+        # the same history (first requests) run on the symbolic argument: the code's recursion returns its coefficient list, which must be the
+        # factorial coefficients (exact integers) — theorem radial_poly_eq_def, every order — and the model's radialPoly
+        pcase = {'what': 'poly', 'cache': True, 'reqs': [[n, m] for n, m in reqs[:6]]}
+        pbad, obs = run_poly(hz, pcase)
+        pseen = set()
+        for key, what, qi in pbad:
+            if key not in pseen:
+                pseen.add(key)
+                ctx.violation(key, what, dict(pcase, reqs=pcase['reqs'][:qi + 1]))
+        ctx.count('high-order-symbolic-requests', len(obs))
+        for (n, m), co in zip(pcase['reqs'], obs):
+            pslots.append((len(lines), n, m, co))
+            lines.append('C13 poly %d %d' % (n, abs(m)))
+            lines.append('C13 defpoly %d %d' % (n, abs(m)))
         ctx.count('high-order-histories'); ctx.count('high-order:n=%d' % case['n']); ctx.count('high-order-requests', len(reqs))
         ctx.count('high-order:two-orders=%r' % case['two_orders'])
         for (n, m), v in zip(reqs, vals):
@@ -1877,6 +1891,22 @@ def check_high_orders(ctx, hz):
                 slots.append((len(lines), n, m, r, None if v is None else float(v[j])))
                 lines.append('C13 radial %d %d %s' % (n, abs(m), r))
     out = ctx.model(lines)
+    for idx, n, m, co in pslots:
+        if not (out[idx].startswith('ok ') and out[idx + 1].startswith('ok ')):
+            raise MachineryError('model answered %r / %r to %r' % (out[idx][:60], out[idx + 1][:60], lines[idx]))
+        ctx.traces_validated += 2
+        if out[idx] != out[idx + 1]:
+            ctx.disagree('C13 poly high', {'n': n, 'm': m, 'radialPoly': out[idx][:200], 'radialDef': out[idx + 1][:200], 'theorem': 'radial_poly_eq_def'})
+        ml = parse_rat_list(out[idx + 1][3:])
+        if [int(q) if q.denominator == 1 else q for q in ml] != dense_def(n, m):
+            ctx.disagree('C13 defpoly', {'n': n, 'm': m, 'model': out[idx + 1][:200], 'definition': dense_def(n, m)})
+        mv = np.array([to_float(q) for q in parse_rat_list(out[idx][3:])])
+        if isinstance(co, str) or len(co) > len(mv) and np.any(co[len(mv):] != 0):
+            ctx.disagree('C13 poly high', {'n': n, 'm': m, 'impl': co if isinstance(co, str) else 'degree %d' % (len(co) - 1), 'model': 'degree %d' % (len(mv) - 1)})
+            continue
+        a = np.zeros(len(mv)); a[:min(len(co), len(mv))] = co[:len(mv)]
+        if np.isnan(a).any() or (np.abs(a - mv) > TOL * max(1.0, float(np.max(np.abs(mv))))).any():
+            ctx.disagree('C13 poly high', {'n': n, 'm': m, 'impl': [repr(v) for v in co][:8], 'model': out[idx][3:120]})
     for idx, n, m, r, v in slots:
         if not out[idx].startswith('ok '):
             raise MachineryError('model answered %r to %r' % (out[idx][:60], lines[idx]))
@@ -1946,9 +1976,9 @@ def run_highmode(hz, case):
 
 
 def check_high_modes(ctx, hz):
-    nhi = ctx.scale(40, 48)
+    nhi = ctx.scale(40, 44)
     lines, slots = [], []
-    for k in range(ctx.scale(10, 80)):
+    for k in range(ctx.scale(10, 30)):
         case = gen_highmode_case(ctx.rng, nhi)
         bad, (pts, real, mags, rim) = run_highmode(hz, case)
         seen = set()
@@ -2006,7 +2036,7 @@ def run(ctx):
                 '(E) the radial polynomial as a polynomial: zernike_radial run on the symbolic argument numpy Polynomial([0,1]) (all 121 pairs n <= 20, any request order, with/without one shared cache) against the factorial coefficients (oracle) and the coefficient lists of the model recursion (radialPoly); peval of the model list = radialEval = the code at sampled radii (0, 1, 2^-20, k/256); the Gram matrix of zernike_radial under 32-point Gauss-Legendre quadrature with weight r against delta/(2(n+1)) (oracle) and the exact integral of the model product polynomial (pint01). '
                 '(F) make_zernike_basis(num, D, grid, starting_mode, ansi, radial_cutoff, use_cache) on unstructured and separated polar grids (all 231 modes directed, random windows of indices, every combination of the keyword defaults): every column against the definition of the mode the documented ordering names (oracle) and against the column of the array-level model basisA (C13 abasis), grid coordinates byte-identical afterwards. '
                 '(G) the Field generators of make_zernike_basis(num, D, None, …) called in random order (some repeatedly) on two polar grids (half of the time of equal size but different points), each call against the definition on the grid it was handed (oracle) and against the model runGensA without a shared cache (C13 gens own). '
-                '(H) beyond the table: zernike_radial for orders 21..40 (thorough 48) in cached request histories (|m| decreasing / increasing / random, repeated requests, two radial orders interleaved in one cache) at r = 0, 1, 2^-12 and random dyadic radii up to 1.125, against the factorial definition in exact integers, the unit-circle identity R_n^m(1) = 1 and the centre value (oracle) and against radialEval of the model (C13 radial) — the theorems radial_matches_definition / radial_at_one / radial_at_zero hold for every order. The complete zernike() for the same orders on unstructured / separated polar grids (centre, exact rim, radii around it, Pythagorean directions; cached histories over several m of either sign, with and without the cut-off) against exact-integer radial definition x 80-bit azimuthal factor (oracle) and against C13 mode x sqrt(C13 normsq) (model). Rim: points exactly on 2r = D (polar grids: always; regular pupil grids: Pythagorean pixels) carry exactly 0 with the cut-off (rim-not-outside). '
+                '(H) beyond the table: zernike_radial for orders 21..40 (thorough 44) in cached request histories (|m| decreasing / increasing / random, repeated requests, two radial orders interleaved in one cache) at r = 0, 1, 2^-12 and random dyadic radii up to 1.125, against the factorial definition in exact integers, the unit-circle identity R_n^m(1) = 1 and the centre value (oracle) and against radialEval of the model (C13 radial); the first requests of each history also on the symbolic argument (coefficient list of the code = factorial coefficients in exact integers = C13 poly = C13 defpoly, theorem radial_poly_eq_def for every order) — the theorems radial_matches_definition / radial_at_one / radial_at_zero hold for every order. The complete zernike() for the same orders on unstructured / separated polar grids (centre, exact rim, radii around it, Pythagorean directions; cached histories over several m of either sign, with and without the cut-off) against exact-integer radial definition x 80-bit azimuthal factor (oracle) and against C13 mode x sqrt(C13 normsq) (model). Rim: points exactly on 2r = D (polar grids: always; regular pupil grids: Pythagorean pixels) carry exactly 0 with the cut-off (rim-not-outside). '
                 'Non-trivial = a mode evaluation on a non-empty grid; distinct by (grid kind, n, m, cutoff, cache, centre present, rim present).')
     ctx.assumptions += ['np.hypot / arctan2 / cos / sin / pow are accurate to a few ulp',
                         'float sqrt in the index maps is tied only on the exhaustively compared range',
